@@ -75,6 +75,22 @@ CLAIMS = {
          "evaluating printer and parser of the model next to the library's on each generated ranking/dataset inside Coq.",
          "Trusted: Coq kernel + vm_compute; hand-written model; harness; ASCII only; names restricted as in DESIGN.md C18.",
          "DESIGN.md section 4, C18"),
+ "C16": ("Coq invariant theorems over a Gallina model of Ranking/Dataset (typed names) + history correspondence judged in Coq",
+         "Machine-checked for all inputs: the Ranking constructor yields duplicate-free disjoint buckets whose positions dictionary has the "
+         "elements as keys and 1 + #elements-before as values; every analysed dataset (hence the result of every constructor, mutator, "
+         "unified_dataset, projection, and of ANY sequence of remove_elements / rate filtering / remove_empty_rankings) has a duplicate-free id "
+         "list covering exactly the union of the domains, homogeneous element types (all int iff every name integer-like), correct "
+         "completeness / tie flags; matrices agree entry-wise; unification and projection specs. Tie to the code: after every step of random "
+         "histories the complete public snapshot (positions dicts, domains, both maps, flags, universe, both matrices) is judged in Coq.",
+         "Trusted: Coq kernel + vm_compute; model; harness; set/dict iteration order observed, not modelled; failed mutators end a history.",
+         "DESIGN.md section 4, C16"),
+ "C17": ("Coq theorems about the multiset-equality model of Dataset.__eq__ + correspondence on hash-colliding variants",
+         "Machine-checked: the model's equality holds exactly when every ranking (buckets as sets, in order) has the same multiplicity in "
+         "both datasets; it is reflexive, symmetric, invariant under permuting the rankings and under any re-listing of bucket members, and "
+         "coincides with ranking equality on singletons. The library's == (both directions, != and == with a deep copy) is compared with it on "
+         "permuted / re-inserted / duplicated / near-miss variants including members that collide in CPython's hash table.",
+         "Trusted: Coq kernel + vm_compute; model; harness; names are ints or ASCII strings.",
+         "DESIGN.md section 4, C17"),
 }
 NOT_YET = "check not built yet in this phase (planned: DESIGN.md section 4); no claim is made"
 
